@@ -182,7 +182,7 @@ class Scenario:
         if c["kind"] == "plain":
             e = pe.ProcessPoolExecutor(max_workers=c["max_workers"], timeout=c.get("timeout"), context=esim.SimContext(), **kw)
         else:
-            e = ru.get_reusable_executor(max_workers=c["max_workers"], timeout=c.get("timeout", 10), context=esim.SimContext(), **kw)
+            e = ru.get_reusable_executor(max_workers=c["max_workers"], timeout=c.get("timeout", 10), context=_ctx(), **kw)
         self._instrument(e)
         return e
 
@@ -200,6 +200,8 @@ class Scenario:
             args = [tid, kind, arg]
             if kind == "unpicklable_arg":
                 args = [tid, "ok", tasks.Unpicklable("arg %s" % tid)]
+            elif kind == "oserror_arg":
+                args = [tid, "ok", tasks.UnpicklableOS("arg %s" % tid)]
             elif kind == "unloadable_arg":
                 args = [tid, "ok", tasks.Unloadable("arg %s" % tid)]
             elif kind == "too_large":
@@ -255,6 +257,7 @@ class Scenario:
             old = self.holder.get("e")
             old_id = getattr(old, "executor_id", None)
             before = list(getattr(old, "_processes", {}) or {}) if old is not None else []
+            live_before = [pid for pid, p in S.procs.items() if not p._dead]
             S.obs(ev="reuse_call", u=u, n=op[1], kw=kw, old_broken=bool(old is not None and old._flags.broken),
                   old_shutdown=bool(old is not None and old._flags.shutdown))
             try:
@@ -271,6 +274,7 @@ class Scenario:
                 after = list(ne._processes)
                 S.obs(ev="reuse_ret", u=u, n=op[1], same=(ne is old), eid=ne.executor_id, old_eid=old_id,
                       nbefore=len(before), kept=len(set(before) & set(after)),
+                      oldalive=len([pid for pid in live_before if not S.procs[pid]._dead]),
                       nproc=len(ne._processes), maxw=ne._max_workers, broken=bool(ne._flags.broken), shutdown=bool(ne._flags.shutdown))
             except BaseException as ex:
                 S.obs(ev="call_exc", u=u, call="reuse", type=type(ex).__name__, what=str(ex)[:100])
@@ -289,6 +293,17 @@ class Scenario:
             S.obs(ev="settled", u=u)
             if k == "sat_probe":
                 S.obs(ev="sat_probe", u=u, n=op[1])
+        elif k == "timeouts_on":
+            self.policy.no_idle = False
+            S.obs(ev="timeouts_on", u=u)
+        elif k == "wait_label":
+            S.step("user.wait_label", pred=lambda: any(r["role"] == op[1] and r["label"] == op[2] and r["state"] == "ready" for r in S.recs.values()))
+        elif k == "wait_live":
+            S.step("user.wait_live(%d)" % op[1], pred=lambda: len([1 for p in S.procs.values() if not p._dead]) <= op[1])
+        elif k == "timeouts_off":
+            # from now on idle timeouts do not expire any more (time stands still for them)
+            self.policy.no_idle = True
+            S.obs(ev="timeouts_off", u=u)
         elif k == "set_pickler":
             from loky.backend.reduction import set_loky_pickler
             set_loky_pickler(op[1])
@@ -369,6 +384,7 @@ class Policy:
         self.change = spec.get("change", 0.05)
         self.hits = {}
         self.ncrash = 0
+        self.no_idle = False
 
     def priority(self, r):
         p = self.prio.get(r["name"])
@@ -418,7 +434,7 @@ class Policy:
         return False
 
     def pick(self, S, en, tb):
-        short = [r for r in tb if r["timed"] is not None and r["timed"] < 5.0]
+        short = [r for r in tb if r["timed"] is not None and r["timed"] < 5.0 and not self.no_idle]
         if short and (not en or self.rng.random() < self.tp):
             return self.rng.choice(sorted(short, key=lambda r: r["name"])), "timeout"
         if not en:
@@ -444,6 +460,7 @@ def run_case(case):
     scn = case["scn"]
     sc = Scenario(scn)
     pol = Policy(case.get("policy", {}), case.get("seed", 0))
+    sc.policy = pol
     budget = case.get("budget", 6000)
     res = dict(i=case.get("i"))
     try:
@@ -500,6 +517,8 @@ def _run(S, pol, budget, only=None, sc=None):
             sleep_run = 0
         if sleep_run > 400 or (not en):
             # nothing but polling loops (or nothing at all) can move: let time pass -> timers fire, short ones first
+            if pol.no_idle:
+                tb = [r for r in tb if r["timed"] >= 5.0]
             if tb:
                 short = [r for r in tb if r["timed"] < 5.0]
                 cand = sorted(short or tb, key=lambda r: (r["timed"], r["name"]))
